@@ -72,44 +72,55 @@ LEVEL_TEXT = ("Machine-checked Coq theorems for all inputs: the Stern-Brocot rec
               "fraction strictly inside the interval whose numerator and denominator are both minimal among all fractions inside "
               "(hence nothing inside is simpler) and never runs out of fuel; the as-is model of Repr::simplest_in (sign dispatch "
               "incl. zero end points, abs, swap, equal end points, two-sided continued-fraction loop with its convergent "
-              "accumulators, the debug assertion, reduce) equals that specification for every pair of end points; the Farey mediant "
+              "accumulators, the debug assertion, reduce) equals that specification for every pair of end points, does not depend "
+              "on the order of its arguments, returns 0 for end points of different sign and never panics; the Farey mediant "
               "walk of farey_neighbors keeps b*c-a*d=1 and left<=x<right, its reduce() is the identity, it stops within limit+1 "
               "steps and its exit pair are the neighbours of x in F_limit; the models of next_up/next_down (1/(limit^2+1) nudge, "
               "split_at_point, IBig+RBig) return the successor/predecessor in F_limit, nearest returns Exact iff the denominator "
               "fits and otherwise a neighbour that no element of F_limit beats, with the sign of result-self; limit 0 is the "
-              "documented panic; is_simpler_than is the documented lexicographic strict total order. Float side: (1) the rounding "
-              "interval used by the SPECIFICATION is proved to be exactly the preimage of the float under its rounding rule: "
-              "C18_spec_round_preimage characterises, for the six modes, the integers N/d that the shared spec_round sends to r "
-              "(directed modes: half-open unit intervals; HalfAway/HalfEven: half-unit intervals, the tie rule deciding the closed "
-              "end); C18_float_interval_is_preimage: for every base >= 2, mode, precision p >= 1, non-zero significand of at most p "
-              "digits and exponent, a canonical fraction is a member of float_interval_spec iff rounding it to p significant digits "
-              "(digit position of its own binade, then spec_round) gives the float - including the B-times narrower part below a "
-              "power of the base and odd bases; C18_ieee_interval_is_preimage: the same for every binary format and every finite "
-              "non-zero bit pattern against round-to-nearest-even with the position clamped at emin (subnormals). (2) the selection "
-              "step (open-interval optimum, then the optional end points) returns THE simplest canonical fraction of the interval, "
-              "and the code after error_bounds / inside impl_simplest_from_float! is exactly that step. (3) the ErrorBounds table "
-              "of float/src/round.rs is regenerated from the source on every run and the hand-written as-is model of error_bounds "
-              "is proved equal to it for every base, mode, precision, exponent and non-zero significand "
-              "(C18_error_bounds_table). (4) outside the open finding classes F06 (odd base with a half mode) and F07 (power of "
-              "the base) the as-is model of simplest_from_float (normalisation, ErrorBounds of the six modes incl. the repaired "
-              "HalfEven parity test, f-+bound) equals the specification for every base >= 2, mode, precision, significand and "
-              "exponent; at unlimited precision for every mode without exception (F08 repaired); the as-is model of the repaired "
-              "impl_simplest_from_float! (f32/f64: end points from the decoded mantissa and exponent in units of ulp/4) equals "
-              "the specification for every format and EVERY bit pattern (F04 repaired, no class left; the pinned macro body is "
-              "proved right exactly for ulp <= 1). The open defects (F06, F07) are modelled as-is and refuted by witnesses; the "
-              "repaired ones (F01-F05, F08) stay refuted on the pinned bodies.")
+              "documented panic; is_simpler_than is the documented lexicographic strict total order. REGENERATED from "
+              "rational/src/simplify.rs and base/src/sign.rs on every run (coq/gen/SimplifyGen.v) and proved equal to the as-is "
+              "models for all inputs (C18_*_regenerated): the body of is_simpler_than with the order of Sign, one iteration of the "
+              "loop of farey_neighbors (symbolically executed) with its start pair and its three debug assertions, one iteration "
+              "of the loop of Repr::simplest_in (mem::swap/take/replace executed symbolically) with the start values of the "
+              "accumulators, the step denominator of next_up/next_down and the midpoint selection of nearest. Float side: (1) the "
+              "rounding interval used by the SPECIFICATION is proved to be exactly the preimage of the float under its rounding "
+              "rule: C18_spec_round_preimage characterises, for the six modes, the integers N/d that the shared spec_round sends "
+              "to r; C18_float_interval_is_preimage: for every base >= 2, mode, precision p >= 1, non-zero significand of at most "
+              "p digits and exponent, a canonical fraction is a member of float_interval_spec iff rounding it to p significant "
+              "digits gives the float - including the B-times narrower part below a power of the base and odd bases; "
+              "C18_ieee_interval_is_preimage: the same for every binary format and every finite non-zero bit pattern against "
+              "round-to-nearest-even with the position clamped at emin (subnormals); and the EXECUTABLE roundings round_to_prec / "
+              "ieee_round with which the oracle re-checks every case are proved to be those declarative relations "
+              "(C18_round_to_prec_is_rounds_to, C18_ieee_round_is_rounds_to: the p-digit window holds at exactly one position and "
+              "the digit-count estimate plus one comparison finds it; rounding is functional). (2) the selection step (open-interval "
+              "optimum, then the optional end points) returns THE simplest canonical fraction of the interval, and the code after "
+              "error_bounds / inside impl_simplest_from_float! is exactly that step. (3) the ErrorBounds table of float/src/round.rs "
+              "(six modes, the helpers is_power_of_base / towards_zero of the repair of F07) is regenerated from the source on "
+              "every run and the hand-written as-is model of error_bounds is proved equal to it for every base, mode, precision, "
+              "exponent and non-zero significand (C18_error_bounds_table). (4) outside the ONE open finding class F06 (odd base "
+              "with a half mode) the as-is model of simplest_from_float (normalisation, ErrorBounds of the six modes incl. the "
+              "repaired HalfEven parity test and the repaired bounds of a power of the base, f-+bound) equals the specification "
+              "for every base >= 2, mode, precision, significand and exponent; at unlimited precision for every mode without "
+              "exception (F08, F09 repaired); the as-is model of the repaired impl_simplest_from_float! (f32/f64) equals the "
+              "specification for every format and EVERY bit pattern: None for every infinity/NaN pattern, 0 for both zeros, "
+              "subnormals, powers of two, both signs (F04 repaired, no class left). The open defect (F06) is modelled as-is and "
+              "refuted by a witness; the repaired ones (F01-F05, F07-F09) stay refuted on the earlier bodies.")
 LEVEL_NOTE = ("Trusted: Coq kernel, extraction (FastZ.v), zarith, OCaml driver, Rust harness. Value level (not word level): IBig/UBig "
               "arithmetic, Repr::cmp, RBig add/reduce and the exact FBig add/sub that forms the bounds are taken as Z/Q mathematics "
-              "(C01/C02/C04/C03's business) and tied by the correspondence run. 'Rounds to the float' is stated declaratively "
-              "(rounds_to / ieee_rounds_to: a digit position k of the number's own binade and spec_round at that position); the "
-              "executable round_to_prec / ieee_round used by the oracle to re-check every case (end points included iff they round "
-              "to the float, the specified answer rounds to the float) are NOT proved equal to that relation - after this round the "
-              "per-case re-check is a consistency check between the proved interval and an independent executable rounding, no "
-              "longer the only tie. Only compared, not proved: that FBig::ulp/digits, with_precision and the FBig subtraction/"
-              "addition forming f-L and f+R compute the model's fractions; that f32/f64::decode yields (mantissa, exponent) as "
-              "modelled. If float/src/round.rs cannot be parsed by tools/translate_c18.py the table tie falls back to the "
+              "(C01/C02/C04/C03's business) and tied by the correspondence run (this round the run exposed exactly such a gap: "
+              "finding F09, the FBig subtraction f - 0 rounds f when the zero carries a smaller precision). 'Rounds to the float' "
+              "is stated declaratively (rounds_to / ieee_rounds_to) and, since this round, proved equivalent to the executable "
+              "round_to_prec / ieee_round of the oracle, so the per-case re-check (end points included iff they round to the "
+              "float, the specified answer rounds to the float) evaluates the relation of the theorems. Only compared, not proved: "
+              "that FBig::ulp/digits, with_precision and the FBig subtraction/addition forming f-L and f+R compute the model's "
+              "fractions; that f32/f64::decode yields (mantissa, exponent) as modelled; the sign dispatch and the final "
+              "unsigned_abs * sign of Repr::simplest_in and the glue of nearest/next_up/next_down around farey_neighbors are "
+              "hand-transcribed (their loop bodies are regenerated). Farey walks take a number of steps linear in the limit "
+              "(recorded in C16): the run bounds limit/denominator for values that already fit. If a source file cannot be "
+              "parsed by tools/translate_c18.py / tools/translate_c18_r3.py the tie of that fragment falls back to the "
               "correspondence run (reported in the evidence, not an alarm).")
-TECHNIQUE = "Coq proof (Stern-Brocot minimality, Farey invariant) + as-is models + extracted-spec correspondence run"
+TECHNIQUE = "Coq proof (Stern-Brocot minimality, Farey invariant, rounding preimages) + as-is models + source fragments regenerated into Coq on every run + extracted-spec correspondence run"
 RULE = ("cases = API x input class. simplest_in: end points equal / swapped / both negative / sign-straddling / zero or integer "
         "end points / adjacent convergents of one continued fraction (deep two-sided descent, exact-division branch) / "
         "denominators of 1,2,3 words at 2^64k-1,0,+1. nearest/next_up/next_down: values built from continued fractions (terms "
@@ -120,19 +131,21 @@ RULE = ("cases = API x input class. simplest_in: end points equal / swapped / bo
         "{0,1,2,3,5,10,20,53,64,100} x significand {1 digit..p digits, power of the base, all-max digits, B^k+-1, random} x sign "
         "x exponent classes, +-inf, 0. A case is non-trivial when the oracle evaluated the Coq specification on a non-degenerate "
         "input (limit > 0, finite float); distinct = distinct case texts.")
-EXPLANATION = ("Theorems (coq/props/C18.v) cover every interval, limit and fraction; the implementation is tied to them by running "
-               "each API on generated inputs and judging the answer with the extracted specification: simplest_in/simplest_from_* "
-               "by equality with the specified optimum, next_up/next_down/nearest by the proved criterion 'the simplest fraction "
-               "strictly between x and the answer has a denominator above the limit'.")
+EXPLANATION = ("Theorems (coq/props/C18.v) cover every interval, limit and fraction; the implementation is tied to them (a) by "
+               "regenerating the small pure bodies of rational/src/simplify.rs and the ErrorBounds table of float/src/round.rs into "
+               "Coq on every run and re-proving that they equal the as-is models, and (b) by running each API on generated inputs "
+               "and judging the answer with the extracted specification: simplest_in/simplest_from_* by equality with the specified "
+               "optimum, next_up/next_down/nearest by the proved criterion 'the simplest fraction strictly between x and the answer "
+               "has a denominator above the limit'.")
 TRUSTED_BASE = [
     "Coq 8.16.1 kernel (coqc); no axioms (Print Assumptions: closed under the global context)",
     "extraction: ExtrOcamlBasic + ExtrOcamlZBigInt + the Extract Constant directives of coq/extract/FastZ.v",
     "OCaml 4.13.1 + zarith 1.12, oracle/common.ml, oracle/driver_c18.ml; Rust harness harness/src/bin/c18.rs",
     "value-level modelling of IBig/UBig/Repr::cmp/RBig::add/reduce and of the exact FBig add/sub forming the rounding bounds",
-    "is_simpler_than is transcribed by hand (translate.py does not emit RatioSmall.v yet)",
+    "tools/translate_c18_r3.py (tokenizer/parser of tools/translate.py + a symbolic executor for straight-line loop bodies): reads is_simpler_than, the loops of farey_neighbors and Repr::simplest_in, the step of next_up/next_down, the selection of nearest (rational/src/simplify.rs) and impl Ord for Sign (base/src/sign.rs) into coq/gen/SimplifyGen.v at plug-in import; its reading of numerator()/denominator()/sign()/abs_cmp/cmp/then_with/is_lt/reduce/div_rem/mem::swap/take/replace and of Repr comparison as cross multiplication is hand-written semantics of those atoms",
     "Float/RoundSpec.v spec_round (shared with C03/C06/C08/C10, tied to the regenerated round_low_part tables by C03_T_round) as the meaning of rounding an exact quotient to an integer; Ratio/FloatPreimage.v rounds_to and Ratio/IeeePreimage.v ieee_rounds_to as the meaning of 'x rounds to the float'",
-    "tools/translate_c18.py (reuses the tokenizer/parser of tools/translate.py): reads the six ErrorBounds bodies of float/src/round.rs into coq/gen/ErrorBoundsTable.v at plug-in import; the reading of f.ulp()/half_ulp/f.repr.digits()/significand.bit(0) as EBUlp/EBHalfUlp/dg/Z.odd and eb_eval's 'ulp panics at precision 0' are hand-written semantics of those atoms",
-    "executable round_to_prec / ieee_round (oracle-side consistency re-check only)",
+    "tools/translate_c18.py (reuses the tokenizer/parser of tools/translate.py): reads the six ErrorBounds bodies and the helpers is_power_of_base / towards_zero of float/src/round.rs into coq/gen/ErrorBoundsTable.v at plug-in import; the reading of f.ulp()/half_ulp/f.repr.digits()/significand.bit(0)/significand.abs_cmp(&IBig::ONE).is_eq() as EBUlp/EBHalfUlp/dg/Z.odd/(|sig| = 1) and eb_eval's 'ulp panics at precision 0' are hand-written semantics of those atoms",
+    "the executable round_to_prec / ieee_round of the oracle are proved equivalent to rounds_to / ieee_rounds_to (Ratio/RoundExecProof.v); nothing trusted there beyond extraction",
 ]
 ASSUMPTIONS = [
     "RBig::from_parts / numerator() / denominator() and FBig::from_repr transport values faithfully (raw words, no parser)",
